@@ -4,12 +4,21 @@ Legs:
   ghost  : random (grid, rank, per-side condition, spec format, field) -> full padded array after
            the interpreted `set_ghost_cells`, the numba ghost-cell setter (source semantics with
            NUMBA_DISABLE_JIT=1 for breadth, JIT-compiled for a subset), `field.set_ghost_cells`,
-           plus `get_virtual_point_data` / `get_virtual_point` - all compared with the Lean model
-           `PdeVerif.BC.setGhostAll` evaluated over exact rationals.
-  parse  : random specification dictionaries -> which condition ends up on which side / which
-           error class, compared with `PdeVerif.BCParse.parse`; alias table compared entry by entry.
+           `field.get_boundary_values`, `get_virtual_point` and `get_virtual_point_data`
+           (const, factor, index) - all compared with the Lean model `PdeVerif.BC.setGhostAll` /
+           `vpDirichlet .. vpMixedCode` evaluated over exact rationals.  Robin coefficients are
+           drawn from {>= 0, negative, +-inf, the singular value -2/dx}, per point for arrays.
+  linked : the value arrays of constant conditions are linked to external memory (`link_value`),
+           changed in place, and the conditions imposed again (interpreted + compiled setter).
+  reject : combinations py-pde does not support (expression conditions for rank >= 1) must be
+           refused with NotImplementedError.
+  parse  : random specifications in every accepted format -> which condition ends up on which
+           side / which error class, compared with `PdeVerif.BCParse.parse`; alias table compared
+           entry by entry.
 Monitor: the defining equation of every condition on every face point of the real padded array
-         and "entries that must not be touched are untouched"."""
+         (NaN-safe: a non-finite entry is a failure) and "entries that must not be touched are
+         untouched"."""
+import copy
 import itertools
 import math
 from fractions import Fraction
@@ -24,25 +33,39 @@ LEVEL = "proof"
 REQUIRED_THEOREMS = [
     "dirichlet_exact", "neumann_exact", "robin_exact", "robin_infinite_is_dirichlet0", "curvature_exact",
     "periodic_exact", "antiperiodic_exact", "exprValue_exact", "exprDerivative_exact", "exprMixed_exact",
-    "setGhost_dirichlet", "setGhost_neumann", "setGhost_mixed", "setGhost_curvature", "setGhost_periodic",
-    "setGhost_exprValue", "setGhost_exprDerivative", "normal_only_touches_normal",
+    "robin_singular_unsatisfiable", "vpMixedCode_finite", "vpMixedCode_inf", "vpMixedCode_singular",
+    "robin_code_exact", "robin_code_infinite",
+    "setGhost_dirichlet", "setGhost_neumann", "setGhost_mixed", "setGhost_mixed_nonfinite", "setGhost_robin_finite",
+    "setGhost_robin_infinite", "setGhost_robin_singular", "setGhost_curvature", "setGhost_periodic",
+    "setGhost_exprValue", "setGhost_exprDerivative", "setGhost_exprMixed", "divByZero_iff", "normal_only_touches_normal",
     "setGhost_writes_exactly_face", "setGhost_valid_unchanged", "setGhostAll_frame", "setGhostAll_written",
-    "setGhostAll_perm", "parse_most_specific_wins", "unspecified_is_error", "auto_periodic_resolves",
-    "periodicity_consistent", "parse_length", "alias_table_classes",
+    "setGhostAll_perm", "holdsAt_of_fixed", "setGhostAll_fixed", "setGhostAll_holds", "setGhostAll_dirichlet",
+    "setGhostAll_robin", "setGhostAll_normal_untouched",
+    "parse_most_specific_wins", "unknown_key_ignored", "lowHigh_is_pair", "seq_is_pair", "formats_agree", "lowHigh_incomplete_is_error",
+    "seq_wrong_length_is_error", "unspecified_is_error", "unspecified_side_is_error", "auto_periodic_resolves",
+    "periodicity_consistent", "parse_periodicity_consistent", "parse_length", "alias_table_classes",
 ]
 RULE = ("ghost leg: seed-derived grids of all classes (1-3 axes, 1-4 cells per axis, dyadic spacings, periodic flags, "
         "holes), field rank 0-2, one condition per side drawn from every class/alias the side admits (value, "
         "derivative, mixed, curvature, normal_*, *_expression, periodic, anti-periodic) with homogeneous / tensor / "
-        "per-face-array / expression values, written in a random accepted format (side keys, axis key, wildcard, named "
-        "side, type-dict / name-dict / bare string); the padded array is pre-filled with distinct markers in all ghost "
-        "cells; distinct by the whole case, non-trivial if at least one inhomogeneous or non-default value is present. "
-        "parse leg: random specification dictionaries incl. malformed ones (missing side, wrong periodicity, unknown "
-        "name, duplicate alias key); distinct by (grid names, dict).")
+        "per-face-array / expression values; Robin coefficients non-negative, negative, +-inf and the singular value "
+        "-2/dx (whole value or single entries of an array); written in a random accepted format (side keys, axis key, "
+        "wildcard, named side, {'low','high'} dictionary, two-element tuple/list, legacy per-axis list, type-dict / "
+        "name-dict / bare string, plus keys the grid does not know); the padded array is pre-filled with distinct "
+        "markers in all ghost cells; distinct by the whole case, non-trivial if at least one inhomogeneous or "
+        "non-default value is present. linked leg: the same cases with constant values linked to arrays that are then "
+        "overwritten. parse leg: random specifications in every format incl. malformed ones (missing side, wrong "
+        "periodicity, unknown name, duplicate alias key, incomplete low/high, wrong sequence length, falsy values, "
+        "unknown keys); distinct by (grid names, data).")
 ASSUMPTIONS = [
     "expression values are polynomials in the boundary coordinates and t with integer coefficients, so the exact value is known",
     "float results are compared with the exact model at 1e-11 relative to the scale of the data; markers and untouched entries exactly",
+    "all generated numbers are dyadic, so `2 + dx*gamma == 0` in floating point iff it holds exactly; coefficients that are "
+    "only nearly singular in floating point are not generated",
+    "an infinite Robin coefficient is judged by the limit form of the condition (boundary value 0), as documented for MixedBC",
 ]
 TRUSTED_EXTRA = ["sympy/numba expression compilation for *_expression conditions is external (validated only)"]
+MIN_LEGS = {"ghost": 300, "parse": 500, "linked": 20, "reject": 10}
 
 KINDS_LOCAL = ["dirichlet", "neumann", "mixed", "curvature"]
 ALIASES = {
@@ -134,9 +157,21 @@ def poly_eval(terms, env):
 
 
 # ------------------------------------------------------------------------------------------
-def gen_side(rng, gd, grid_axes, dim, axis, rank, t, ctx_hist):
+def _dyadic(x):
+    d = Fraction(x).denominator
+    return d & (d - 1) == 0
+
+
+def _fl(x, inf):
+    """float of an exact value with its infinity flag (0, +1, -1)"""
+    return float(x) if not inf else math.copysign(math.inf, inf)
+
+
+def gen_side(rng, gd, grid_axes, dim, axis, rank, t, ctx_hist, extended=False):
     """one local (non-periodic) condition; returns dict(kind, normal, v, c (Fraction arrays of the
-    full value shape), spec (what py-pde gets), alias)"""
+    full value shape), vinf (None or flags 0/+1/-1 marking infinite entries of v), spec (what py-pde
+    gets), alias).  `extended=False` reproduces the generator the other checks (C03, C05, C18) were
+    built on; `extended=True` adds negative / infinite / singular Robin coefficients."""
     shape = gd["shape"]
     nax = len(shape)
     normal = rank >= 1 and rng.random() < 0.35
@@ -155,23 +190,37 @@ def gen_side(rng, gd, grid_axes, dim, axis, rank, t, ctx_hist):
     other = [j for j in range(nax) if j != axis]
     dxs = [Fraction(gd["bounds"][j][1] - gd["bounds"][j][0]) / shape[j] for j in range(nax)]
     centres = {j: [Fraction(gd["bounds"][j][0]) + (Fraction(2 * i + 1, 2)) * dxs[j] for i in range(shape[j])] for j in other}
+    sing = -2 / dxs[axis]  # the coefficient for which the discrete Robin equation is singular
+    n = int(np.prod(vshape)) if vshape else 1
+    last = {}
 
     def value_array(mode):
         """returns (exact array of shape vshape as nested list flattened row-major, python value for the spec, tag)"""
-        n = int(np.prod(vshape)) if vshape else 1
         if mode == "scalar":
             x = Fraction(rng.randint(-6, 6), rng.choice([1, 2, 4]))
+            last.update(base=[x], rep=n, mode=mode)
             return [x] * n, float(x), "scalar"
         if mode == "tensor":  # shape (dim,)*vrank, broadcast along the face
             tn = dim ** vrank
             tv = [Fraction(rng.randint(-6, 6), rng.choice([1, 2])) for _ in range(tn)]
             fn = int(np.prod(face_shape)) if face_shape else 1
             flat = [tv[i] for i in range(tn) for _ in range(fn)]
+            last.update(base=tv, rep=fn, mode=mode)
             return flat, np.array([float(x) for x in tv]).reshape([dim] * vrank), "tensor"
         if mode == "array":  # full shape
             fv = [Fraction(rng.randint(-8, 8), rng.choice([1, 2, 4])) for _ in range(n)]
+            last.update(base=fv, rep=1, mode=mode)
             return fv, np.array([float(x) for x in fv]).reshape(vshape), "per-face-array"
         raise ValueError(mode)
+
+    def rebuild(base, binf, rep, mode):
+        """(flat exact values, flat infinity flags, python value) of a value given by its independent entries"""
+        flat = [x for x in base for _ in range(rep)]
+        finf = [i for i in binf for _ in range(rep)]
+        fl = [_fl(x, i) for x, i in zip(base, binf)]
+        if mode == "scalar":
+            return flat, finf, fl[0]
+        return flat, finf, np.array(fl).reshape([dim] * vrank if mode == "tensor" else vshape)
 
     def expr_value(names_allowed, with_t):
         terms = gen_poly(rng, names_allowed, with_t)
@@ -187,9 +236,22 @@ def gen_side(rng, gd, grid_axes, dim, axis, rank, t, ctx_hist):
         v, vspec, tag = expr_value(other_names, True)
         c, cspec = None, None
         if kind == "exprMixed":
-            # keep gamma*dx + 2 away from zero: gamma >= 0
-            g = Fraction(rng.randint(0, 4), rng.choice([1, 2]))
-            v, vspec = [g] * len(v), str(float(g))
+            if not extended:
+                # keep gamma*dx + 2 away from zero: gamma >= 0
+                g = Fraction(rng.randint(0, 4), rng.choice([1, 2]))
+                v, vspec = [g] * len(v), str(float(g))
+            else:
+                r = rng.random()
+                if r < 0.45:  # a constant of either sign
+                    g = Fraction(rng.randint(-4, 4), rng.choice([1, 2]))
+                    v, vspec, gtag = [g] * len(v), str(float(g)), "const"
+                elif r < 0.53 and _dyadic(sing):  # the singular coefficient: the expression divides by zero
+                    v, vspec, gtag = [sing] * len(v), str(float(sing)), "singular"
+                else:  # the coefficient is an expression itself (keeps the polynomial drawn above)
+                    gtag = "expression"
+                if gtag != "singular" and any(x * dxs[axis] + 2 == 0 for x in v):
+                    gtag = "accidentally-singular"
+                ctx_hist("gamma", "exprMixed:" + gtag)
             c, cspec, _ = expr_value(other_names, True)
         alias = rng.choice(ALIASES[kind])
         spec = {"type": alias, "value": vspec}
@@ -198,8 +260,8 @@ def gen_side(rng, gd, grid_axes, dim, axis, rank, t, ctx_hist):
         elif rng.random() < 0.5:
             spec = {alias: vspec}
         ctx_hist("value", f"{kind}:{tag}")
-        return {"kind": kind, "normal": False, "v": v, "c": c, "spec": spec, "alias": alias, "vshape": vshape,
-                "text": vspec}
+        return {"kind": kind, "normal": False, "v": v, "c": c, "vinf": None, "spec": spec, "alias": alias,
+                "vshape": vshape, "text": vspec, "ctext": cspec}
     modes = ["scalar", "scalar"]
     if vrank > 0:
         modes += ["tensor", "tensor"]
@@ -211,20 +273,45 @@ def gen_side(rng, gd, grid_axes, dim, axis, rank, t, ctx_hist):
     else:
         v, vspec, tag = value_array(mode)
     c, cspec = None, None
+    vinf = None
     if kind == "mixed":
-        # gamma >= 0 keeps 2 + dx*gamma away from 0
-        v = [abs(x) for x in v]
-        if isinstance(vspec, np.ndarray):
-            vspec = np.abs(vspec)
-        elif isinstance(vspec, float):
-            vspec = abs(vspec)
-        else:  # expression: replace by a scalar gamma
+        gmode = "nonneg"
+        if extended:
+            r = rng.random()
+            gmode = "nonneg" if r < 0.35 else "signed" if r < 0.65 else "inf" if r < 0.9 else "singular"
+            if gmode == "singular" and not _dyadic(sing):
+                gmode = "signed"
+        if isinstance(vspec, str):  # expression: replace by a scalar gamma
             g = Fraction(rng.randint(0, 4), 2)
             v, vspec, tag = [g] * len(v), float(g), "scalar"
+            last.update(base=[g], rep=n, mode="scalar")
+        if gmode == "nonneg":
+            # gamma >= 0 keeps 2 + dx*gamma away from 0
+            v = [abs(x) for x in v]
+            if isinstance(vspec, np.ndarray):
+                vspec = np.abs(vspec)
+            elif isinstance(vspec, float):
+                vspec = abs(vspec)
+        elif gmode in ("inf", "singular"):
+            base, rep, bmode = list(last["base"]), last["rep"], last["mode"]
+            binf = [0] * len(base)
+            hit = [i for i in range(len(base)) if rng.random() < 0.5] or [rng.randrange(len(base))]
+            for i in hit:
+                if gmode == "inf":
+                    base[i], binf[i] = Fraction(0), rng.choice([1, 1, -1])
+                else:
+                    base[i] = sing
+            v, vinf, vspec = rebuild(base, binf, rep, bmode)
+            if not any(vinf):
+                vinf = None
+        if extended:
+            if gmode != "singular" and any(x * dxs[axis] + 2 == 0 and not (vinf and vinf[i]) for i, x in enumerate(v)):
+                gmode = "accidentally-singular"
+            ctx_hist("gamma", "mixed:" + gmode)
         c, cspec, _ = value_array(rng.choice(modes))
     akey = ("n_" if normal else "") + kind
     alias = rng.choice(ALIASES[akey])
-    zero = all(x == 0 for x in v) and (c is None or all(x == 0 for x in c))
+    zero = all(x == 0 for x in v) and not vinf and (c is None or all(x == 0 for x in c))
     r = rng.random()
     if zero and c is None and r < 0.5:
         spec = alias  # bare string: value 0
@@ -235,7 +322,7 @@ def gen_side(rng, gd, grid_axes, dim, axis, rank, t, ctx_hist):
     else:
         spec = {alias: vspec}
     ctx_hist("value", f"{akey}:{tag}")
-    return {"kind": kind, "normal": normal, "v": v, "c": c, "spec": spec, "alias": alias, "vshape": vshape,
+    return {"kind": kind, "normal": normal, "v": v, "c": c, "vinf": vinf, "spec": spec, "alias": alias, "vshape": vshape,
             "text": str(vspec) if isinstance(vspec, str) else None}
 
 
@@ -251,7 +338,22 @@ AXES = {"UnitGrid": "xyz", "CartesianGrid": "xyz", "PolarSymGrid": ["r"], "Spher
 DIM = {"PolarSymGrid": 2, "SphericalSymGrid": 3, "CylindricalSymGrid": 3}
 
 
-def gen_case(rng, hist):
+BOGUS_KEYS = ["z", "y", "w", "x--", "x+-", "X", "top", "bottom", "front", "back", "inner", "outer", "left", "right",
+              "upper", "foo", "r", "z+", "y-", "all", "low-", "high+"]
+
+
+def unknown_keys(gd):
+    """keys that mean nothing on this grid (another grid's axis or side name, misspellings)"""
+    nax = len(gd["shape"])
+    axes = list(AXES[gd["cls"]])[:nax]
+    known = set(axes) | {a + e for a in axes for e in "-+"} | {n for n, a, _ in SIDE_NAMES[gd["cls"]] if a < nax}
+    return [k for k in BOGUS_KEYS if k not in known]
+
+
+def gen_case(rng, hist, extended=False):
+    """`extended=False`: the generator the other checks were built on (unchanged random stream);
+    `extended=True` (C02): additionally negative/infinite/singular Robin coefficients, the
+    {'low','high'} / two-element-sequence / legacy-list formats and keys the grid does not know"""
     gd = gen_grid(rng)
     nax = len(gd["shape"])
     axes = list(AXES[gd["cls"]])[:nax]
@@ -261,23 +363,44 @@ def gen_case(rng, hist):
     sides = {}
     spec = {}
     fmt_used = []
+    seq_type = rng.choice([tuple, list]) if extended else tuple
+    legacy = extended and rng.random() < 0.1
+    legacy_list = []
     for ax in range(nax):
         if gd["periodic"][ax]:
             anti = rng.random() < 0.3
             name = "anti-periodic" if anti else "periodic"
             for up in (False, True):
                 sides[(ax, up)] = {"kind": "antiperiodic" if anti else "periodic", "normal": False, "v": None,
-                                   "c": None, "vshape": [], "alias": name}
+                                   "c": None, "vinf": None, "vshape": [], "alias": name}
             spec[axes[ax]] = name
+            legacy_list.append(seq_type([name, name]) if extended and rng.random() < 0.3 else name)
             fmt_used.append("axis")
             hist("value", name)
             continue
-        lo = gen_side(rng, gd, axes, dim, ax, rank, t, hist)
+        lo = gen_side(rng, gd, axes, dim, ax, rank, t, hist, extended)
         same = rng.random() < 0.25
-        hi = dict(lo) if same else gen_side(rng, gd, axes, dim, ax, rank, t, hist)
+        hi = dict(lo) if same else gen_side(rng, gd, axes, dim, ax, rank, t, hist, extended)
         sides[(ax, False)], sides[(ax, True)] = lo, hi
         r = rng.random()
         names = {(a, u): n for n, a, u in SIDE_NAMES[gd["cls"]]}
+        if extended:
+            lowhigh = {"low": lo["spec"], "high": hi["spec"]}
+            pair = seq_type([lo["spec"], hi["spec"]])
+            legacy_list.append(lo["spec"] if same and rng.random() < 0.5 else rng.choice([lowhigh, pair]))
+            r2 = rng.random()
+            if r2 < 0.14:
+                spec[axes[ax]] = lowhigh
+                fmt_used.append("axis:low/high")
+                continue
+            if r2 < 0.28:
+                spec[axes[ax]] = pair
+                fmt_used.append("axis:" + seq_type.__name__)
+                continue
+            if r2 < 0.33 and "*" not in spec and nax == 1:
+                spec["*"] = rng.choice([lowhigh, pair])
+                fmt_used.append("wildcard:pair")
+                continue
         if same and r < 0.6:
             spec[axes[ax]] = lo["spec"]
             fmt_used.append("axis")
@@ -305,6 +428,21 @@ def gen_case(rng, hist):
     if len(axis_entries) == 1 and nax == 1 and rng.random() < 0.5:
         spec["*"] = spec.pop(axis_entries[0])
         fmt_used.append("wildcard")
+    if extended:
+        if legacy:
+            # deprecated but accepted: one entry per axis in a list; on a 1-axis grid also the two sides directly
+            if nax == 1 and not gd["periodic"][0] and rng.random() < 0.4:
+                spec = seq_type([sides[(0, False)]["spec"], sides[(0, True)]["spec"]])
+                fmt_used = ["legacy:two-sides"]
+            else:
+                spec = seq_type(legacy_list)
+                fmt_used = ["legacy:list"]
+        elif rng.random() < 0.3:
+            # keys the grid does not know are ignored (with a warning)
+            for k in rng.sample(unknown_keys(gd), rng.randint(1, 2)):
+                spec[k] = rng.choice(["value", {"derivative": 2.0}, "periodic", {"type": "mixed", "value": 1.0, "const": 3.0},
+                                      {"low": "value", "high": "neumann"}])
+            fmt_used.append("+unknown-key")
     for f in fmt_used:
         hist("format", f)
     # field data: integers in the valid cells, distinct markers everywhere else
@@ -336,51 +474,180 @@ def case_key(case):
             "spec": repr(case["spec"]), "data": [float(x) for x in case["data"].ravel()]}
 
 
+def _exc(e):
+    return f"EXC: {type(e).__name__}: {str(e)[:300]}"
+
+
+def _exc_name(text):
+    parts = [x.strip() for x in str(text).split(":")]
+    return next((x for x in parts if x.endswith(("Error", "Exception", "Warning"))), parts[0])
+
+
+def agree(real, exp, scale):
+    """NaN-safe comparison (1e-11 relative to max(scale, |expected|) per entry) with an expected array in
+    which NaN marks "the real code divides by zero here" (the real entry must then be non-finite)"""
+    real, exp = np.asarray(real, dtype=float), np.asarray(exp, dtype=float)
+    if real.shape != exp.shape:
+        return False
+    fin = np.isfinite(exp)
+    with np.errstate(invalid="ignore"):
+        ok = np.abs(real - exp)[fin] <= 1e-11 * np.maximum(scale, np.abs(exp[fin]))
+        return bool(np.all(ok)) and not bool(np.any(np.isfinite(real[~fin])))
+
+
+def side_float_values(s):
+    """float array (shape vshape) of the value of a constant condition, infinities included"""
+    vinf = s.get("vinf") or [0] * len(s["v"])
+    return np.array([_fl(x, i) for x, i in zip(s["v"], vinf)]).reshape(s["vshape"] or ())
+
+
 # ------------------------------------------------------------------------------------------
 # real code (runs in worker processes)
 def real_ghost(arg):
-    """returns dict route -> padded array (list) or 'EXC: ...'"""
+    """returns dict route -> padded array, or the string 'EXC: ...' where the real code raised"""
     import pde
     from pde import get_backend
 
     import logging
+    import warnings
 
     logging.getLogger("pde").setLevel(logging.ERROR)
-    case, want_numba = arg
+    warnings.simplefilter("ignore")
+    case, want_numba = arg[0], arg[1]
     grid = make_grid(case["grid"])
     rank = case["rank"]
+    nax = grid.num_axes
     out = {}
     args = {"t": case["t"]}
     try:
         bcs = grid.get_boundary_conditions(case["spec"], rank=rank)
     except Exception as e:  # noqa
         return {"error": f"{type(e).__name__}: {e}"}
-    d = case["data"].copy()
-    bcs.set_ghost_cells(d, args=args)
-    out["interpreted"] = d
-    # field method
+    try:
+        d = case["data"].copy()
+        bcs.set_ghost_cells(d, args=args)
+        out["interpreted"] = d
+    except Exception as e:  # noqa
+        out["interpreted"] = _exc(e)
+    # field method + boundary values of every face
     cls = [pde.ScalarField, pde.VectorField, pde.Tensor2Field][rank]
-    f = cls(grid, data=case["data"].copy(), with_ghost_cells=True)
-    f.set_ghost_cells(case["spec"], args=args)
-    out["field"] = f._data_full.copy()
+    try:
+        f = cls(grid, data=case["data"].copy(), with_ghost_cells=True)
+        f.set_ghost_cells(case["spec"], args=args)
+        out["field"] = f._data_full.copy()
+        out["bvals"] = {(ax, up): np.array(f.get_boundary_values(ax, up, bc=None), dtype=float)
+                        for ax in range(nax) for up in (False, True)}
+    except Exception as e:  # noqa
+        out["field"] = _exc(e)
+    if arg[2] if len(arg) > 2 else False:
+        # get_boundary_values imposing the conditions itself (no `args`: only for conditions that do not depend on t)
+        try:
+            f = cls(grid, data=case["data"].copy(), with_ghost_cells=True)
+            out["bvals_bc"] = {(0, True): np.array(f.get_boundary_values(0, True, bc=case["spec"]), dtype=float)}
+            out["bvals_bc_full"] = f._data_full.copy()
+        except Exception as e:  # noqa
+            out["bvals_bc"] = _exc(e)
     # virtual point data / get_virtual_point of each local condition
-    vp = {}
+    vp, vpt = {}, {}
+    valid = tuple([slice(None)] * rank + [slice(1, -1)] * nax)
+    arr_valid = case["data"][valid]
     for ax, b in enumerate(bcs):
         for up, s in ((False, b.low), (True, b.high)):
+            if not hasattr(s, "get_virtual_point_data"):
+                continue
             try:
                 data = s.get_virtual_point_data()
                 vp[(ax, up)] = [np.array(x, dtype=float) if not isinstance(x, (int, np.integer)) else int(x) for x in data]
-            except Exception:
-                pass
+            except Exception as e:  # noqa
+                vp[(ax, up)] = _exc(e)
+            if s.normal:
+                continue
+            try:
+                fshape = [grid.shape[j] for j in range(nax) if j != ax]
+                res = np.empty([grid.dim] * rank + fshape)
+                for pos in itertools.product(*[range(k) for k in fshape]):
+                    idx = list(pos)
+                    idx.insert(ax, grid.shape[ax] if up else -1)
+                    res[(Ellipsis,) + tuple(pos)] = s.get_virtual_point(arr_valid, tuple(idx))
+                vpt[(ax, up)] = res
+            except Exception as e:  # noqa
+                vpt[(ax, up)] = _exc(e)
     out["vpdata"] = vp
+    out["vpoint"] = vpt
     if want_numba:
         from pde.backends.numba.utils import numba_dict
 
-        setter = get_backend("numba").make_ghost_cell_setter(bcs)
-        d2 = case["data"].copy()
-        setter(d2, args=numba_dict(t=float(case["t"])))
-        out["numba"] = d2
+        try:
+            setter = get_backend("numba").make_ghost_cell_setter(bcs)
+            d2 = case["data"].copy()
+            setter(d2, args=numba_dict(t=float(case["t"])))
+            out["numba"] = d2
+        except Exception as e:  # noqa
+            out["numba"] = _exc(e)
     return out
+
+
+def real_linked(arg):
+    """link the values of constant conditions to arrays, impose, overwrite the arrays in place, impose again"""
+    import logging
+    import warnings
+    from pde import get_backend
+    from pde.backends.numba.utils import numba_dict
+
+    logging.getLogger("pde").setLevel(logging.ERROR)
+    warnings.simplefilter("ignore")
+    case, vals2 = arg
+    grid = make_grid(case["grid"])
+    args = {"t": case["t"]}
+    try:
+        bcs = grid.get_boundary_conditions(case["spec"], rank=case["rank"])
+    except Exception as e:  # noqa
+        return {"error": f"{type(e).__name__}: {e}"}
+    links = {}
+    try:
+        for ax, b in enumerate(bcs):
+            for up, s in ((False, b.low), (True, b.high)):
+                if (ax, up) in vals2:
+                    arr = np.array(side_float_values(case["sides"][(ax, up)]), dtype=float, order="C")
+                    s.link_value(arr)
+                    links[(ax, up)] = arr
+    except Exception as e:  # noqa
+        return {"error": "link_value: " + _exc(e)}
+    out = {}
+    setter = None
+    for phase in (1, 2):
+        if phase == 2:
+            for k, arr in links.items():
+                arr[...] = np.array(vals2[k], dtype=float).reshape(arr.shape)
+        try:
+            d = case["data"].copy()
+            bcs.set_ghost_cells(d, args=args)
+            out[f"interpreted{phase}"] = d
+        except Exception as e:  # noqa
+            out[f"interpreted{phase}"] = _exc(e)
+        try:
+            if setter is None:
+                setter = get_backend("numba").make_ghost_cell_setter(bcs)
+            d2 = case["data"].copy()
+            setter(d2, args=numba_dict(t=float(case["t"])))
+            out[f"numba{phase}"] = d2
+        except Exception as e:  # noqa
+            out[f"numba{phase}"] = _exc(e)
+    return out
+
+
+def real_reject(arg):
+    """a specification py-pde does not support: returns the exception class name or 'accepted'"""
+    import logging
+
+    logging.getLogger("pde").setLevel(logging.ERROR)
+    gd, rank, spec = arg
+    grid = make_grid(gd)
+    try:
+        grid.get_boundary_conditions(spec, rank=rank)
+    except Exception as e:  # noqa
+        return type(e).__name__
+    return "accepted"
 
 
 # ------------------------------------------------------------------------------------------
@@ -394,35 +661,69 @@ def model_request(case):
             cond["v"] = [q(x) for x in s["v"]]
         if s["c"] is not None:
             cond["c"] = [q(x) for x in s["c"]]
+        if s["kind"] == "mixed":
+            cond["dx"] = q(dx)  # the branch of MixedBC.get_virtual_point_data depends on 2 + dx*gamma
+            if s.get("vinf"):
+                cond["vinf"] = [int(x) for x in s["vinf"]]
         faces.append({"axis": ax, "upper": up, "normal": s["normal"], "dx": q(dx), "cond": cond})
     return {"shape": gd["shape"], "rank": case["rank"], "dim": case["dim"],
             "data": [q(float(x)) for x in case["data"].ravel()], "faces": faces}
 
 
-def compare_arrays(model, real, scale):
-    """index of the first differing entry or None; markers/untouched entries must agree exactly"""
+def vpdata_request(case, ax, up):
+    s = case["sides"][(ax, up)]
+    gd = case["grid"]
+    dx = Fraction(gd["bounds"][ax][1] - gd["bounds"][ax][0]) / gd["shape"][ax]
+    req = {"kind": s["kind"], "dx": q(dx), "N": gd["shape"][ax], "upper": up}
+    if s["v"] is not None:
+        req["v"] = [q(x) for x in s["v"]]
+    if s["c"] is not None:
+        req["c"] = [q(x) for x in s["c"]]
+    if s.get("vinf"):
+        req["vinf"] = [int(x) for x in s["vinf"]]
+    return req
+
+
+def compare_arrays(model, real, scale, div0=()):
+    """index of the first differing entry or None; markers/untouched entries must agree exactly;
+    NaN-safe (a non-finite entry of the real array differs from every model value), except at the
+    indices `div0`, where the model says the real code divides by zero: there the entry must be
+    non-finite"""
     real = np.asarray(real, dtype=float).ravel()
     if len(model) != len(real):
         return -1
+    div0 = set(div0)
     for i, (m, r) in enumerate(zip(model, real)):
+        if i in div0:
+            if math.isfinite(r):
+                return i
+            continue
         mf = float(m)
-        if abs(mf - r) > 1e-11 * max(scale, abs(mf)):
+        if not (abs(mf - r) <= 1e-11 * max(scale, abs(mf))):
             return i
     return None
 
 
+SINGULAR_WHAT = "robin: d_n c + g c = b fails at a singular coefficient (2 + dx*g = 0)"
+
+
 def monitor(case, arr):
-    """defining equations on every face point of the real padded array + untouched entries"""
+    """defining equations on every face point of the real padded array + untouched entries;
+    NaN-safe; returns the first failure that is not at a singular Robin coefficient if there is one"""
     gd, rank, dim = case["grid"], case["rank"], case["dim"]
     nax = len(gd["shape"])
     shape = gd["shape"]
     orig = case["data"]
-    arr = np.asarray(arr)
+    arr = np.asarray(arr, dtype=float)
+    if arr.shape != orig.shape:
+        return {"what": "shape of the padded array changed", "kind": None, "shape": list(arr.shape)}
     written = np.zeros(arr.shape, dtype=bool)
     tol = 1e-9
+    singular_failure = None
     for (ax, up), s in case["sides"].items():
         N = shape[ax]
-        dx = float(gd["bounds"][ax][1] - gd["bounds"][ax][0]) / N
+        dxq = Fraction(gd["bounds"][ax][1] - gd["bounds"][ax][0]) / N
+        dx = float(dxq)
         g_i = N + 1 if up else 0
         n_i = N if up else 1
         n2_i = N - 1 if up else 2
@@ -432,6 +733,8 @@ def monitor(case, arr):
         other = [j for j in range(nax) if j != ax]
         vs = None if s["v"] is None else np.array([float(x) for x in s["v"]]).reshape(s["vshape"] or [1])
         cs = None if s["c"] is None else np.array([float(x) for x in s["c"]]).reshape(s["vshape"] or [1])
+        vq = None if s["v"] is None else np.array(s["v"], dtype=object).reshape(s["vshape"] or [1])
+        vinf = None if not s.get("vinf") else np.array(s["vinf"]).reshape(s["vshape"] or [1])
         for comp in comps:
             if s["normal"] and comp[-1] != ax:
                 continue
@@ -441,39 +744,86 @@ def monitor(case, arr):
                 vi = tuple(comp[:vrank]) + tuple(p - 1 for p in pos)
                 if not s["vshape"]:
                     vi = (0,)
-                ghost, cell = arr[full(g_i)], arr[full(n_i)]
+                ghost, cell = float(arr[full(g_i)]), float(arr[full(n_i)])
                 written[full(g_i)] = True
                 k = s["kind"]
-                sc = max(1.0, abs(ghost), abs(cell))
+                sc = max(1.0, abs(ghost), abs(cell)) if math.isfinite(ghost) and math.isfinite(cell) else 1.0
+                singular = False
                 if k in ("dirichlet", "exprValue"):
-                    lhs, rhs, what = (ghost + cell) / 2, vs[vi], "value: (ghost+cell)/2 = v"
+                    lhs, rhs, what = (ghost + cell) / 2, float(vs[vi]), "value: (ghost+cell)/2 = v"
                 elif k in ("neumann", "exprDerivative"):
-                    lhs, rhs, what = (ghost - cell) / dx, vs[vi], "derivative: (ghost-cell)/dx = d"
+                    lhs, rhs, what = (ghost - cell) / dx, float(vs[vi]), "derivative: (ghost-cell)/dx = d"
                 elif k in ("mixed", "exprMixed"):
-                    lhs, rhs, what = (ghost - cell) / dx + vs[vi] * (ghost + cell) / 2, cs[vi], "robin: d_n c + g c = b"
+                    if vinf is not None and vinf[vi]:
+                        lhs, rhs, what = (ghost + cell) / 2, 0.0, "robin with infinite coefficient: (ghost+cell)/2 = 0"
+                    else:
+                        singular = 2 + dxq * vq[vi] == 0
+                        gam = float(vs[vi])
+                        lhs, rhs, what = (ghost - cell) / dx + gam * (ghost + cell) / 2, float(cs[vi]), "robin: d_n c + g c = b"
+                        sc = max(sc, abs(gam) * sc)
                 elif k == "curvature":
-                    c2 = arr[full(n2_i)]
-                    lhs, rhs, what = (ghost - 2 * cell + c2) / dx ** 2, vs[vi], "curvature: (ghost-2c1+c2)/dx^2 = k"
-                    sc = max(sc, abs(c2)) / dx ** 2
+                    c2 = float(arr[full(n2_i)])
+                    lhs, rhs, what = (ghost - 2 * cell + c2) / dx ** 2, float(vs[vi]), "curvature: (ghost-2c1+c2)/dx^2 = k"
+                    sc = max(sc, abs(c2) if math.isfinite(c2) else 1.0) / dx ** 2
                 elif k == "periodic":
-                    lhs, rhs, what = ghost, arr[full(o_i)], "periodic: ghost = opposite cell"
+                    lhs, rhs, what = ghost, float(arr[full(o_i)]), "periodic: ghost = opposite cell"
                 elif k == "antiperiodic":
-                    lhs, rhs, what = ghost, -arr[full(o_i)], "anti-periodic: ghost = -opposite cell"
+                    lhs, rhs, what = ghost, -float(arr[full(o_i)]), "anti-periodic: ghost = -opposite cell"
                 else:
                     continue
-                if abs(lhs - rhs) > tol * max(sc, abs(rhs)):
-                    return {"what": what, "axis": ax, "upper": up, "index": [int(i) for i in full(g_i)],
-                            "lhs": float(lhs), "rhs": float(rhs), "kind": k, "normal": s["normal"]}
+                if not (abs(lhs - rhs) <= tol * max(sc, abs(rhs))):
+                    fail = {"what": SINGULAR_WHAT if singular else what, "axis": ax, "upper": up,
+                            "index": [int(i) for i in full(g_i)], "lhs": float(lhs), "rhs": float(rhs), "kind": k,
+                            "normal": s["normal"], "singular": bool(singular), "ghost": float(ghost), "cell": float(cell)}
+                    if not singular:
+                        return fail
+                    singular_failure = singular_failure or fail
     untouched = ~written
-    if not np.array_equal(arr[untouched], orig[untouched]):
-        bad = np.argwhere(untouched & (arr != orig))[0]
-        return {"what": "entry that must stay untouched was modified", "index": [int(i) for i in bad],
+    same = (arr == orig) | (np.isnan(arr) & np.isnan(orig))
+    if not bool(np.all(same[untouched])):
+        bad = np.argwhere(untouched & ~same)[0]
+        return {"what": "entry that must stay untouched was modified", "index": [int(i) for i in bad], "kind": None,
                 "before": float(orig[tuple(bad)]), "after": float(arr[tuple(bad)])}
-    return None
+    return singular_failure
+
+
+def vpoint_monitor(case, ax, up, vpt):
+    """the defining equation of face (ax, up) for the virtual points `vpt` returned by `get_virtual_point`"""
+    g, _ = face_slices(case, ax, up)
+    arr = np.array(case["data"], dtype=float)
+    if np.shape(vpt) != arr[g].shape:
+        return {"what": "shape of the virtual points", "kind": case["sides"][(ax, up)]["kind"], "shape": list(np.shape(vpt))}
+    arr[g] = vpt
+    return monitor(dict(case, sides={(ax, up): case["sides"][(ax, up)]}), arr)
+
+
+def face_slices(case, ax, up):
+    """(ghost, near) index tuples selecting the whole face in the padded array (all components)"""
+    rank, nax = case["rank"], len(case["grid"]["shape"])
+    N = case["grid"]["shape"][ax]
+    g = [slice(None)] * rank + [slice(1, -1)] * nax
+    n = list(g)
+    g[rank + ax] = N + 1 if up else 0
+    n[rank + ax] = N if up else 1
+    return tuple(g), tuple(n)
+
+
+def failure_key(route, m, case):
+    """narrow key of a monitor failure (matched against known_findings.json)"""
+    key = {"route": route, "kind": m.get("kind")}
+    if m.get("singular"):
+        if m["kind"] == "mixed":
+            key.update(call_site="MixedBC.get_virtual_point_data", symptom="singular-coefficient-imposes-value-0")
+        else:
+            key.update(call_site="ExpressionBC.set_ghost_cells", symptom="singular-coefficient-division-by-zero")
+    return key
 
 
 # ------------------------------------------------------------------------------------------
 # parse leg
+PARSE_BOGUS = ["z", "w", "x--", "X", "front", "back", "upper", "foo", "all", "y", "top", "inner", "phi", "theta", "radius-"]
+
+
 def gen_parse_case(rng, hist):
     cls = rng.choice(["CartesianGrid", "CartesianGrid", "PolarSymGrid", "SphericalSymGrid", "CylindricalSymGrid"])
     nax = {"PolarSymGrid": 1, "SphericalSymGrid": 1, "CylindricalSymGrid": 2}.get(cls) or rng.choice([1, 2, 3])
@@ -484,6 +834,8 @@ def gen_parse_case(rng, hist):
            "CylindricalSymGrid": [["phi", "φ"]]}.get(cls, [])
     sides = [[n, a, u] for n, a, u in SIDE_NAMES[cls] if a < nax]
     vid_counter = [0]
+    seq_type = rng.choice([tuple, list])
+    side_names = {n for n, _, _ in sides}
 
     def spec_for(per_hint):
         vid_counter[0] += 1
@@ -493,12 +845,12 @@ def gen_parse_case(rng, hist):
             return ({"t": "periodic"}, "periodic")
         if per_hint and r < 0.75:
             return ({"t": "antiperiodic"}, "anti-periodic")
-        if r < 0.05:
+        if r < 0.03:
             return ({"t": "periodic"}, "periodic")
-        if r < 0.15:
+        if r < 0.09:
             name = rng.choice(["value", "neumann", "derivative"])
             return ({"t": "auto", "name": name, "vid": 0}, "auto_periodic_" + name)
-        if r < 0.2:
+        if r < 0.12:
             return ({"t": "named", "name": "bogus_name", "vid": vid}, {"bogus_name": vid})
         kind = rng.choice(["dirichlet", "neumann", "mixed", "curvature", "exprValue", "exprDerivative"])
         name = rng.choice(ALIASES[kind])
@@ -510,10 +862,59 @@ def gen_parse_case(rng, hist):
             return ({"t": "named", "name": name, "vid": vid}, {"type": name, "value": vid})
         return ({"t": "named", "name": name, "vid": vid}, {name: vid})
 
-    if rng.random() < 0.15:
+    def inner_spec(per_hint):
+        """a condition inside a composite entry: mostly a valid local condition"""
+        while True:
+            m, p = spec_for(per_hint)
+            if (m["t"] == "named" and m["name"] != "bogus_name") or rng.random() < 0.2:
+                return m, p
+
+    def lowhigh_for(per_hint):
+        lo = None if rng.random() < 0.05 else inner_spec(per_hint and rng.random() < 0.3)
+        hi = None if (rng.random() < 0.05 and lo is not None) else inner_spec(per_hint and rng.random() < 0.3)
+        extra = rng.random() < 0.05
+        py = {}
+        if lo is not None:
+            py["low"] = lo[1]
+        if hi is not None:
+            py["high"] = hi[1]
+        if extra:
+            py["unused"] = 0
+        hist("parse-entry", "low/high" + ("" if lo and hi and not extra else ":incomplete"))
+        return ({"t": "lowhigh", "lo": lo and lo[0], "hi": hi and hi[0], "extra": extra}, py)
+
+    def entry_for(per_hint, axis_level=True):
+        """(model entry, python value) written for an axis or `*` (`axis_level`), or for a side / named boundary,
+        where anything but a single condition is an error unless both sides get equal values"""
+        r = rng.random()
+        if r < (0.6 if axis_level and not per_hint else 0.93):
+            hist("parse-entry", "one")
+            return spec_for(per_hint)
+        if r < (0.8 if axis_level else 0.965):
+            return lowhigh_for(per_hint)
+        k = rng.choice([2, 2, 2, 2, 2, 2, 2, 2, 0, 1, 3])
+        if k == 2 and rng.random() < 0.2:
+            one = spec_for(per_hint)
+            items = [one, one]  # two identical conditions
+        else:
+            items = [inner_spec(per_hint and rng.random() < 0.5) for _ in range(k)]
+        hist("parse-entry", f"{seq_type.__name__}:{k}")
+        return ({"t": "seq", "l": [m for m, _ in items]}, seq_type([p for _, p in items]))
+
+    r0 = rng.random()
+    if r0 < 0.13:
         m, p = spec_for(all(gd["periodic"]))
         top_m, top_p = {"all": m}, p
         hist("parse-format", "single-for-all")
+    elif r0 < 0.19:
+        m, p = lowhigh_for(all(gd["periodic"]))
+        top_m, top_p = {"lowhigh": m}, p
+        hist("parse-format", "legacy:low/high-for-all")
+    elif r0 < 0.29:
+        k = rng.choice([nax, nax, nax, nax, nax + 1, max(nax - 1, 1), 2])
+        items = [entry_for(gd["periodic"][i % nax] and rng.random() < 0.9) for i in range(k)]
+        top_m, top_p = {"list": [m for m, _ in items]}, seq_type([p for _, p in items])
+        hist("parse-format", "legacy:list")
     else:
         d_m, d_p = [], {}
         keys = []
@@ -540,12 +941,17 @@ def gen_parse_case(rng, hist):
             keys.append((cand, per))
         if rng.random() < 0.3:
             keys.append((["*"], False))
+        if rng.random() < 0.25:
+            # keys the grid does not know (ignored), incl. alternative names of coordinates that are not axes
+            known = set(axes) | {a + e for a in axes for e in "-+"} | {n for n, _, _ in sides} | {p + e for p, r_ in alt if r_ in axes for e in ("", "-", "+")}
+            pool = [k for k in PARSE_BOGUS if k not in known]
+            keys.append((rng.sample(pool, rng.randint(1, 2)), False))
         for cand, per in keys:
             for k in cand:
                 if k in d_p:
                     continue
                 # a one-sided entry on a periodic axis is usually wrong on purpose only sometimes
-                m, p = spec_for(per and (rng.random() < 0.9))
+                m, p = entry_for(per and (rng.random() < 0.9), axis_level=(k == "*" or not k.endswith(("-", "+"))) and k not in side_names)
                 d_m.append([k, m])
                 d_p[k] = p
         top_m, top_p = {"dict": d_m}, d_p
@@ -561,11 +967,14 @@ def real_parse(case):
     from pde.grids.boundaries.axes import PeriodicityError
 
     import logging
+    import warnings
 
     logging.getLogger("pde").setLevel(logging.ERROR)
     grid = make_grid(case["grid"])
     try:
-        bcs = BoundariesList.from_data(case["top_py"], grid=grid, rank=0)
+        with warnings.catch_warnings():
+            warnings.simplefilter("ignore")
+            bcs = BoundariesList.from_data(case["top_py"], grid=grid, rank=0)
     except PeriodicityError:
         return "error:periodicity"
     except BCDataError:
@@ -590,9 +999,121 @@ def real_parse(case):
     return res
 
 
+def parse_monitor(p, real):
+    """every accepted specification yields one condition per axis that agrees with the grid's periodicity"""
+    if isinstance(real, str):
+        return None
+    if len(real) != len(p["axes"]):
+        return {"what": "number of resolved axes", "call_site": "BoundariesList.from_data"}
+    for ax, r in enumerate(real):
+        if (r in ("periodic", "anti-periodic")) != p["periodic"][ax]:
+            return {"what": "accepted condition contradicts grid periodicity", "call_site": "get_boundary_axis"}
+    return None
+
+
+DOC_ALIAS_CLASS = {"dirichlet": "DirichletBC", "neumann": "NeumannBC", "mixed": "MixedBC", "curvature": "CurvatureBC",
+                   "n_dirichlet": "NormalDirichletBC", "n_neumann": "NormalNeumannBC", "n_mixed": "NormalMixedBC",
+                   "n_curvature": "NormalCurvatureBC", "exprValue": "ExpressionValueBC",
+                   "exprDerivative": "ExpressionDerivativeBC", "exprMixed": "ExpressionMixedBC"}
+
+
+def alias_monitor():
+    """(real table, first documented alias that denotes another class or None)"""
+    from pde.grids.boundaries.local import registered_boundary_condition_names
+
+    real_alias = sorted((k, v.__name__) for k, v in registered_boundary_condition_names().items())
+    doc = dict(sum([[(a, k) for a in v] for k, v in ALIASES.items()], []))
+    for a, k in doc.items():
+        got = dict(real_alias).get(a)
+        if got != DOC_ALIAS_CLASS[k]:
+            return real_alias, {"alias": a, "got": got, "expected": DOC_ALIAS_CLASS[k]}
+    return real_alias, None
+
+
 # ------------------------------------------------------------------------------------------
+def _model_scale(model):
+    small = [abs(float(x)) for x in model if abs(float(x)) < 900]
+    return max(1.0, max(small) if small else 1.0)
+
+
+def _depends_on_t(case):
+    return any(s["kind"].startswith("expr") and "t" in (s.get("text") or "") + (s.get("ctext") or "")
+               for s in case["sides"].values())
+
+
+def gen_linked(rng, case, hist):
+    """second set of values (full value shape) for the constant conditions whose value gets linked:
+    {(ax, up): (exact values, infinity flags)}; {} if the case has no such condition"""
+    out = {}
+    for key, s in case["sides"].items():
+        if s["kind"] not in ("dirichlet", "neumann", "mixed", "curvature") or rng.random() < 0.25:
+            continue
+        n = len(s["v"])
+        if s["kind"] == "mixed":
+            v2 = [Fraction(rng.randint(0, 8), rng.choice([1, 2, 4])) for _ in range(n)]
+            inf2 = [(rng.choice([1, -1]) if rng.random() < 0.2 else 0) for _ in range(n)]
+            v2 = [Fraction(0) if i else x for x, i in zip(v2, inf2)]
+        else:
+            v2 = [Fraction(rng.randint(-8, 8), rng.choice([1, 2, 4])) for _ in range(n)]
+            inf2 = [0] * n
+        out[key] = (v2, inf2)
+        hist("linked", ("n_" if s["normal"] else "") + s["kind"])
+    return out
+
+
+def linked_case2(case, vals2):
+    """the case after the linked arrays have been overwritten"""
+    c2 = dict(case)
+    c2["sides"] = {k: dict(s) for k, s in case["sides"].items()}
+    for key, (v2, inf2) in vals2.items():
+        c2["sides"][key]["v"] = list(v2)
+        c2["sides"][key]["vinf"] = list(inf2) if any(inf2) else None
+    return c2
+
+
+def linked_failure_key(route, phase, m, case):
+    key = {"route": route, "phase": phase, "kind": m.get("kind")}
+    if m.get("singular"):
+        return dict(failure_key(route, m, case), phase=phase)
+    if m.get("kind") == "curvature" and route == "numba" and phase == 2:
+        key.update(call_site="numba _get_virtual_point_data_2ndorder", symptom="linked-value-frozen-at-compile-time")
+    elif m.get("kind") == "mixed":
+        key.update(call_site="MixedBC.link_value", symptom="const-not-broadcast-to-linked-value-shape")
+    return key
+
+
+def gen_reject(rng):
+    """expression conditions on vector/tensor fields: not supported by py-pde -> NotImplementedError"""
+    while True:
+        gd = gen_grid(rng)
+        if not all(gd["periodic"]):
+            break
+    nax = len(gd["shape"])
+    axes = list(AXES[gd["cls"]])[:nax]
+    rank = rng.choice([1, 2])
+    ax = rng.choice([i for i in range(nax) if not gd["periodic"][i]])
+    others = [a for i, a in enumerate(axes) if i != ax]
+    text = poly_text(gen_poly(rng, others, True))
+    kind = rng.choice(["exprValue", "exprDerivative", "exprMixed", "const-string", "const-string"])
+    if kind == "const-string":
+        bad = {rng.choice(["value", "derivative", "curvature", "normal_value"]): poly_text(gen_poly(rng, others, False))}
+    elif kind == "exprMixed":
+        bad = {"type": rng.choice(ALIASES[kind]), "value": "1", "const": text}
+    else:
+        bad = {rng.choice(ALIASES[kind]): text}
+    if rank == 1 and kind == "const-string" and "normal_value" in bad:
+        # a normal condition on a vector field has a scalar value: a string IS supported there
+        bad = {"value": bad["normal_value"]}
+    spec = {}
+    for i in range(nax):
+        spec[axes[i]] = "periodic" if gd["periodic"][i] else "derivative"
+    spec[axes[ax] + rng.choice("-+")] = bad
+    return {"grid": gd, "rank": rank, "spec": spec, "kind": kind}
+
+
 def run(ctx):
     from harness.common.lean import LeanBatch
+    from harness.common import lean as lean_mod
     import logging
     import pde  # noqa
 
@@ -601,23 +1122,45 @@ def run(ctx):
     rng = ctx.rng
     n_ghost = ctx.budget(500, 6000)
     n_jit = ctx.budget(24, 200)
-    n_parse = ctx.budget(800, 8000)
+    n_parse = ctx.budget(900, 9000)
+    n_link = ctx.budget(70, 700)
+    n_link_jit = ctx.budget(10, 80)
+    n_reject = ctx.budget(40, 300)
     batch = LeanBatch(ctx.workdir)
 
     # ---- alias table ------------------------------------------------------------------------
     i_alias = batch.add("c02.aliases", {})
 
     # ---- ghost leg -----------------------------------------------------------------------------
-    cases = []
-    for _ in range(n_ghost):
-        c = gen_case(rng, ctx.hist)
-        cases.append(c)
-    reqs = [batch.add("c02.ghost", model_request(c)) for c in cases]
+    cases = [gen_case(rng, ctx.hist, extended=True) for _ in range(n_ghost)]
+    reqs = [batch.add("c02.ghost2", model_request(c)) for c in cases]
+    vpreqs = [{key: batch.add("c02.vpdata", vpdata_request(c, *key)) for key, s in c["sides"].items()
+               if s["kind"] in ("dirichlet", "neumann", "mixed", "curvature", "periodic", "antiperiodic")} for c in cases]
     # real code: all cases with source semantics of the numba kernels, a subset compiled
-    res_s = run_many("harness.c02", "real_ghost", [(c, True) for c in cases], env={"NUMBA_DISABLE_JIT": "1"}, procs=16)
+    res_s = run_many("harness.c02", "real_ghost", [(c, True, not _depends_on_t(c)) for c in cases],
+                     env={"NUMBA_DISABLE_JIT": "1"}, procs=16)
     jit_ids = sorted(rng.sample(range(len(cases)), min(n_jit, len(cases))))
-    res_j = run_many("harness.c02", "real_ghost", [(cases[i], True) for i in jit_ids], env={"NUMBA_DISABLE_JIT": "0"}, procs=16)
+    res_j = run_many("harness.c02", "real_ghost", [(cases[i], True, False) for i in jit_ids], env={"NUMBA_DISABLE_JIT": "0"}, procs=16)
     res_j = dict(zip(jit_ids, res_j))
+
+    # ---- linked leg ----------------------------------------------------------------------------
+    lcases = []
+    while len(lcases) < n_link:
+        c = gen_case(rng, lambda *a, **k: None, extended=True)
+        v2 = gen_linked(rng, c, ctx.hist)
+        if v2:
+            lcases.append((c, v2))
+    lreqs = [(batch.add("c02.ghost2", model_request(c)), batch.add("c02.ghost2", model_request(linked_case2(c, v2))))
+             for c, v2 in lcases]
+    largs = [(c, {k: [_fl(x, i) for x, i in zip(*v)] for k, v in v2.items()}) for c, v2 in lcases]
+    lres_s = run_many("harness.c02", "real_linked", largs, env={"NUMBA_DISABLE_JIT": "1"}, procs=16)
+    ljit_ids = list(range(min(n_link_jit, len(lcases))))
+    lres_j = dict(zip(ljit_ids, run_many("harness.c02", "real_linked", [largs[i] for i in ljit_ids],
+                                         env={"NUMBA_DISABLE_JIT": "0"}, procs=16)))
+
+    # ---- reject leg ----------------------------------------------------------------------------
+    rcases = [gen_reject(rng) for _ in range(n_reject)]
+    rres = run_many("harness.c02", "real_reject", [(r["grid"], r["rank"], r["spec"]) for r in rcases], procs=8)
 
     # ---- parse leg -----------------------------------------------------------------------------
     pcases = [gen_parse_case(rng, ctx.hist) for _ in range(n_parse)]
@@ -626,78 +1169,234 @@ def run(ctx):
     answers = batch.run()
 
     # alias table
-    from pde.grids.boundaries.local import registered_boundary_condition_names
-
-    real_alias = sorted((k, v.__name__) for k, v in registered_boundary_condition_names().items())
+    real_alias, bad_alias = alias_monitor()
     st, val = answers[i_alias]
     model_alias = sorted((a, b) for a, b in val) if st == "ok" else None
     ctx.count({"leg": "aliases"}, nontrivial=True, leg="aliases")
     ctx.impl_traces += 1
+    ctx.monitor_evals += 1
     if model_alias != real_alias:
         diff = sorted(set(real_alias) ^ set(model_alias or []))
         ctx.disagree("aliases", {"table": "registered_boundary_condition_names"}, model_alias, real_alias, f"differing entries {diff}")
+    if bad_alias:
         # property-level: an alias that denotes a different class than documented
-        doc = dict(sum([[(a, k) for a in v] for k, v in ALIASES.items()], []))
-        cls_of = {"dirichlet": "DirichletBC", "neumann": "NeumannBC", "mixed": "MixedBC", "curvature": "CurvatureBC",
-                  "n_dirichlet": "NormalDirichletBC", "n_neumann": "NormalNeumannBC", "n_mixed": "NormalMixedBC",
-                  "n_curvature": "NormalCurvatureBC", "exprValue": "ExpressionValueBC",
-                  "exprDerivative": "ExpressionDerivativeBC", "exprMixed": "ExpressionMixedBC"}
-        for a, k in doc.items():
-            got = dict(real_alias).get(a)
-            if got != cls_of[k]:
-                ctx.monitor_fail("aliases", {"alias": a}, got, cls_of[k], "alias denotes another condition class",
-                                 key={"call_site": "registered_boundary_condition_names"})
-                break
+        ctx.monitor_fail("aliases", {"alias": bad_alias["alias"], "leg": "aliases"}, bad_alias["got"], bad_alias["expected"],
+                         "alias denotes another condition class", key={"call_site": "registered_boundary_condition_names"})
 
-    for ci, (c, ri) in enumerate(zip(cases, reqs)):
+    def judge(c, ckey, leg, rname, arr, model, div0, singular, mode, extra_case=None, keyfn=failure_key):
+        """compare one route's padded array with the model and run the monitor on it; `div0` = flat
+        indices where the model says the real code divides by zero (entry non-finite or ZeroDivisionError),
+        `singular` = the case contains a singular Robin coefficient (a ValueError saying so is a correct refusal)"""
+        base = {"spec": repr(c["spec"]), "grid": c["grid"], "rank": c["rank"], "t": c["t"], "data": ckey["data"]}
+        ctx.impl_traces += 1
+        ctx.monitor_evals += 1
+        rec = dict(base, route=rname, mode=mode, leg=leg, pickle_case=pack(c))
+        rec.update(extra_case or {})
+        if isinstance(arr, str):
+            if singular and "ValueError" in arr and "singular" in arr.lower():
+                ctx.hist("outcome", "singular coefficient rejected with ValueError")
+                return
+            if div0 and "ZeroDivisionError" in arr:
+                ctx.hist("outcome", "division by zero in an expression raised ZeroDivisionError")
+                return
+            ctx.monitor_fail(leg + ":" + rname, rec, arr, "conditions are imposed", "imposing accepted conditions raised an exception",
+                             key={"route": rname, "symptom": "exception", "exception": _exc_name(arr)})
+            return
+        bad = compare_arrays(model, arr, _model_scale(model), div0)
+        if bad is not None:
+            flat = np.asarray(arr, dtype=float).ravel()
+            idx = np.unravel_index(bad, np.asarray(arr).shape) if bad >= 0 else None
+            ctx.disagree(leg + ":" + rname, base,
+                         {"index": None if idx is None else [int(i) for i in idx], "value": str(model[bad]) if bad >= 0 else None,
+                          "division_by_zero_expected": bool(bad in set(div0))},
+                         {"value": float(flat[bad]) if bad >= 0 else None, "len": len(flat)}, "padded arrays differ")
+        m = monitor(c, arr)
+        if m:
+            ctx.monitor_fail(leg + ":" + rname, rec, m, "condition holds on every face point; other entries untouched", m["what"],
+                             key=keyfn(rname, m, c))
+
+    def model_of(ri):
+        st, val = answers[ri]
+        if st != "ok":
+            return None, val, None
+        return [unq(x) for x in val["a"]], list(val["div0"]), list(val["sing"])
+
+    def judge_ghost_case(ci, c, ri):
         key = case_key(c)
-        nontriv = any((s["v"] is not None and any(x != 0 for x in s["v"])) or s["kind"] in ("periodic", "antiperiodic")
+        nontriv = any((s["v"] is not None and (any(x != 0 for x in s["v"]) or s.get("vinf"))) or s["kind"] in ("periodic", "antiperiodic")
                       for s in c["sides"].values())
         ctx.count(key, nontrivial=nontriv, leg="ghost")
         ctx.hist("grid", f"{c['grid']['cls']}/{len(c['grid']['shape'])}d/rank{c['rank']}")
-        st, val = answers[ri]
+        model, div0, singular = model_of(ri)
         rs = res_s[ci]
         if isinstance(rs, str) or "error" in rs:
             ctx.disagree("ghost", {"spec": repr(c["spec"]), "grid": c["grid"], "rank": c["rank"]}, "accepted",
                          rs if isinstance(rs, str) else rs["error"], "real code rejected a specification the generator considers valid")
-            continue
-        if st != "ok":
-            ctx.disagree("ghost", key, f"model error {val}", "ok")
-            continue
-        model = [unq(x) for x in val]
-        scale = max(1.0, max(abs(float(x)) for x in model if abs(float(x)) < 900) if any(abs(float(x)) < 900 for x in model) else 1.0)
-        routes = {"interpreted": rs["interpreted"], "field.set_ghost_cells": rs["field"], "numba-setter(source)": rs["numba"]}
-        if ci in res_j and not isinstance(res_j[ci], str) and "numba" in res_j[ci]:
-            routes["numba-setter(jit)"] = res_j[ci]["numba"]
+            return
+        if model is None:
+            ctx.disagree("ghost", key, f"model error {div0}", "ok")
+            return
+        if div0:
+            ctx.hist("outcome", "model: expression divides by zero")
+        if singular:
+            ctx.hist("outcome", "model: singular Robin coefficient")
+        routes = [("interpreted", rs["interpreted"], "source"), ("field.set_ghost_cells", rs["field"], "source"),
+                  ("numba-setter(source)", rs["numba"], "source")]
+        if "bvals_bc_full" in rs:
+            routes.append(("get_boundary_values(bc)", rs["bvals_bc_full"], "source"))
+        elif isinstance(rs.get("bvals_bc"), str):
+            routes.append(("get_boundary_values(bc)", rs["bvals_bc"], "source"))
+        if ci in res_j:
+            rj = res_j[ci]
+            routes.append(("numba-setter(jit)", rj if isinstance(rj, str) else rj.get("numba", rj.get("error", "EXC: ?: no result")), "jit"))
             ctx.hist("route", "numba-jit")
-        elif ci in res_j:
-            ctx.disagree("ghost", key, "ok", str(res_j[ci])[:500], "compiled ghost-cell setter failed")
-        for rname, arr in routes.items():
-            ctx.impl_traces += 1
-            bad = compare_arrays(model, arr, scale)
-            if bad is not None:
-                flat = np.asarray(arr, dtype=float).ravel()
-                idx = np.unravel_index(bad, np.asarray(arr).shape) if bad >= 0 else None
-                ctx.disagree("ghost:" + rname, {"spec": repr(c["spec"]), "grid": c["grid"], "rank": c["rank"], "t": c["t"],
-                                                "data": key["data"]},
-                             {"index": None if idx is None else [int(i) for i in idx], "value": str(model[bad]) if bad >= 0 else None},
-                             {"value": float(flat[bad]) if bad >= 0 else None, "len": len(flat)}, "padded arrays differ")
-            ctx.monitor_evals += 1
-            m = monitor(c, arr)
-            if m:
-                ctx.monitor_fail("ghost:" + rname, {"spec": repr(c["spec"]), "grid": c["grid"], "rank": c["rank"], "t": c["t"],
-                                                    "data": key["data"], "route": rname, "pickle_case": pack(c)},
-                                 m, "condition holds on every face point; other entries untouched", m["what"],
-                                 key={"route": rname, "kind": m.get("kind")})
-        # virtual point data of homogeneous scalar-valued local conditions
-        for (ax, up), s in c["sides"].items():
-            vp = rs["vpdata"].get((ax, up))
-            if vp is None or s["kind"] not in ("dirichlet", "neumann", "mixed", "curvature", "periodic", "antiperiodic"):
+        for rname, arr, mode in routes:
+            judge(c, key, "ghost", rname, arr, model, div0, singular, mode)
+        marr = np.array([float(x) for x in model])
+        marr[list(div0)] = np.nan  # the real code divides by zero there: any non-finite entry
+        marr = marr.reshape(c["data"].shape)
+        # field.get_boundary_values = (ghost + cell)/2 of the model's array, on every face
+        for src, tab in (("get_boundary_values", rs.get("bvals")), ("get_boundary_values(bc)", rs.get("bvals_bc"))):
+            if not isinstance(tab, dict):
                 continue
-            N = c["grid"]["shape"][ax]
-            exp_idx = (0 if up else N - 1) if s["kind"] in ("periodic", "antiperiodic") else (N - 1 if up else 0)
-            if int(vp[2]) != exp_idx:
-                ctx.disagree("vpdata", {"spec": repr(c["spec"]), "axis": ax, "upper": up}, exp_idx, int(vp[2]), "index of the cell read")
+            for (ax, up), bv in tab.items():
+                g, n = face_slices(c, ax, up)
+                exp = (marr[g] + marr[n]) / 2
+                ctx.impl_traces += 1
+                if not agree(bv, exp, _model_scale(model)):
+                    ctx.disagree("ghost:" + src, {"spec": repr(c["spec"]), "grid": c["grid"], "rank": c["rank"], "axis": ax, "upper": up},
+                                 exp.tolist(), bv.tolist(), "boundary values differ from (ghost+cell)/2 of the model")
+                s = c["sides"][(ax, up)]
+                if s["kind"] == "dirichlet" and not s["normal"]:
+                    # monitor: the value condition read through the public accessor
+                    ctx.monitor_evals += 1
+                    want = np.array([float(x) for x in s["v"]]).reshape(s["vshape"] or ())
+                    if bv.shape != np.shape(want) or not bool(np.all(np.abs(bv - want) <= 1e-9 * np.maximum(1.0, np.abs(want)))):
+                        ctx.monitor_fail("ghost:" + src, {"spec": repr(c["spec"]), "grid": c["grid"], "rank": c["rank"], "t": c["t"],
+                                                          "data": key["data"], "route": src, "mode": "source", "leg": "ghost",
+                                                          "axis": ax, "upper": up, "pickle_case": pack(c)},
+                                         bv.tolist(), want.tolist(), "get_boundary_values differs from the imposed value",
+                                         key={"route": src, "kind": "dirichlet"})
+        # get_virtual_point of constant conditions = the ghost entries of the model
+        for (ax, up), vpt in rs["vpoint"].items():
+            s = c["sides"][(ax, up)]
+            ctx.impl_traces += 1
+            if isinstance(vpt, str):
+                if not (singular and "ValueError" in vpt and "singular" in vpt.lower()):
+                    ctx.disagree("ghost:get_virtual_point", {"spec": repr(c["spec"]), "grid": c["grid"], "axis": ax, "upper": up},
+                                 "ok", vpt, "get_virtual_point raised")
+                continue
+            g, _ = face_slices(c, ax, up)
+            exp = marr[g]
+            if not agree(vpt, exp, _model_scale(model)):
+                ctx.disagree("ghost:get_virtual_point", {"spec": repr(c["spec"]), "grid": c["grid"], "rank": c["rank"], "axis": ax, "upper": up},
+                             exp.tolist(), vpt.tolist(), "virtual points differ")
+            # monitor: the virtual points returned for this face satisfy the face's defining equation
+            ctx.monitor_evals += 1
+            m = vpoint_monitor(c, ax, up, vpt)
+            if m:
+                ctx.monitor_fail("ghost:get_virtual_point", {"spec": repr(c["spec"]), "grid": c["grid"], "rank": c["rank"], "t": c["t"],
+                                                             "data": key["data"], "route": "get_virtual_point", "mode": "source",
+                                                             "leg": "ghost", "axis": ax, "upper": up, "pickle_case": pack(c)},
+                                 m, "the virtual point satisfies the condition", m["what"], key=failure_key("get_virtual_point", m, c))
+        # get_virtual_point_data (const, factor, index) of every constant / periodic condition
+        for (ax, up), vri in vpreqs[ci].items():
+            s = c["sides"][(ax, up)]
+            vp = rs["vpdata"].get((ax, up))
+            stv, mv = answers[vri]
+            ctx.impl_traces += 1
+            vkey = {"spec": repr(c["spec"]), "grid": c["grid"], "rank": c["rank"], "axis": ax, "upper": up, "kind": s["kind"]}
+            if stv != "ok":
+                ctx.disagree("vpdata", vkey, f"model error {mv}", "ok")
+                continue
+            if vp is None or isinstance(vp, str):
+                if not (isinstance(vp, str) and singular and "ValueError" in vp and "singular" in vp.lower()):
+                    ctx.disagree("vpdata", vkey, "data", vp, "get_virtual_point_data missing or raised")
+                continue
+            rows = [[float(unq(x)) for x in r] for r in mv["rows"]]
+            vshape = s["vshape"] if s["kind"] not in ("periodic", "antiperiodic") else []
+            ncol = 3 if s["kind"] == "curvature" else 2
+            if len(vp) != (5 if ncol == 3 else 3):
+                ctx.disagree("vpdata", vkey, f"{2 * ncol - 1} items", f"{len(vp)} items", "layout of get_virtual_point_data")
+                continue
+            real_cols = [vp[0], vp[1]] + ([vp[3]] if ncol == 3 else [])
+            idx_real = [int(vp[2])] + ([int(vp[4])] if ncol == 3 else [])
+            idx_model = [int(mv["index"])] + ([int(mv["index2"])] if ncol == 3 else [])
+            if idx_real != idx_model:
+                ctx.disagree("vpdata", vkey, idx_model, idx_real, "index of the cell(s) read")
+            for col in range(ncol):
+                want = np.array([r[col] for r in rows]).reshape(vshape or ())
+                got = np.asarray(real_cols[col], dtype=float)
+                try:
+                    # homogeneous data has the tensor shape only: add the face axes
+                    got = np.broadcast_to(got.reshape(got.shape + (1,) * (want.ndim - got.ndim)), want.shape)
+                    ok = bool(np.all(np.abs(got - want) <= 1e-11 * np.maximum(1.0, np.abs(want))))
+                except ValueError:
+                    ok = False
+                if not ok:
+                    ctx.disagree("vpdata", vkey, want.tolist(), np.asarray(real_cols[col]).tolist(),
+                                 ["const", "factor", "factor2"][col] + " of get_virtual_point_data")
+                    break
+
+    # ---- linked leg: judged after the link (phase 1) and after overwriting the linked arrays (phase 2)
+    def judge_linked_case(li, c, v2, r1, r2):
+        key = case_key(c)
+        ctx.count({"case": key, "values2": {str(k): [str(x) for x in v[0]] + [str(i) for i in v[1]] for k, v in v2.items()}},
+                  nontrivial=True, leg="linked")
+        c2 = linked_case2(c, v2)
+        for mode, res in (("source", lres_s[li]), ("jit", lres_j.get(li))):
+            if res is None:
+                continue
+            if isinstance(res, str) or "error" in res:
+                ctx.disagree("linked", {"spec": repr(c["spec"]), "grid": c["grid"], "rank": c["rank"]}, "accepted",
+                             res if isinstance(res, str) else res["error"], "real code rejected the specification or link_value")
+                continue
+            for phase, cc, ri in ((1, c, r1), (2, c2, r2)):
+                model, div0, singular = model_of(ri)
+                if model is None:
+                    ctx.disagree("linked", key, f"model error {div0}", "ok")
+                    continue
+                for route in ("interpreted", "numba"):
+                    # the compiled setter of a LINKED mixed condition tests `np.isinf(value)` only: at a singular
+                    # coefficient it divides by zero (the interpreted path takes the corrected branch)
+                    d0 = sorted(set(div0) | set(singular)) if route == "numba" else div0
+                    got = res[f"{route}{phase}"]
+                    if route == "numba" and mode == "jit" and isinstance(got, str) and "TypingError" in got \
+                            and any(c["sides"][k]["vshape"] == [] for k in v2):
+                        # observation (mirrors the code that exists): the value getter of a linked 0-d array (point
+                        # boundary of a 1-axis grid, scalar value) does not compile - a loud refusal, nothing is imposed
+                        ctx.hist("outcome", "linked 0-d value: compiled setter refuses with TypingError")
+                        ctx.impl_traces += 1
+                        continue
+                    judge(cc, key, "linked", f"{route}{phase}({mode})", got, model, d0, singular, mode,
+                          extra_case={"pickle_values2": pack(v2), "phase": phase, "pickle_case": pack(c)},
+                          keyfn=lambda rn, m, case, route=route, phase=phase: linked_failure_key(route, phase, m, case))
+
+    def guarded(leg, case, fn):
+        """a result of the real code that the harness cannot even interpret is a disagreement with the model, not a
+        defect of the check"""
+        try:
+            fn()
+        except lean_mod.BrokenCheck:
+            raise
+        except Exception as e:  # noqa
+            import traceback
+            ctx.disagree(leg, {"spec": repr(case["spec"]), "grid": case["grid"], "rank": case["rank"]}, "a result of the modelled layout",
+                         traceback.format_exc()[-600:], f"result of the real code could not be interpreted ({type(e).__name__})")
+
+    for ci, (c, ri) in enumerate(zip(cases, reqs)):
+        guarded("ghost", c, lambda ci=ci, c=c, ri=ri: judge_ghost_case(ci, c, ri))
+
+    for li, ((c, v2), (r1, r2)) in enumerate(zip(lcases, lreqs)):
+        guarded("linked", c, lambda li=li, c=c, v2=v2, r1=r1, r2=r2: judge_linked_case(li, c, v2, r1, r2))
+    # ---- reject leg
+    for r, got in zip(rcases, rres):
+        rkey = {"grid": r["grid"], "rank": r["rank"], "spec": repr(r["spec"])}
+        ctx.count(rkey, nontrivial=True, leg="reject")
+        ctx.hist("reject", f"{r['kind']}/rank{r['rank']}:{got}")
+        ctx.impl_traces += 1
+        if got != "NotImplementedError":
+            ctx.disagree("reject", rkey, "NotImplementedError", got, "expression condition for a vector/tensor field")
 
     for p, ri in zip(pcases, preqs):
         key = {"grid": p["grid"]["cls"], "periodic": p["periodic"], "top": repr(p["top_py"])}
@@ -713,28 +1412,72 @@ def run(ctx):
                 ctx.disagree("parse", key, val, real, "resolved conditions differ")
         # monitor for the parse level: every side has exactly one condition or an error was raised
         ctx.monitor_evals += 1
-        if not isinstance(real, str):
-            if len(real) != len(p["axes"]):
-                ctx.monitor_fail("parse", key, real, "one result per axis", "number of resolved axes", key={"call_site": "BoundariesList.from_data"})
-            for ax, r in enumerate(real):
-                if (r in ("periodic", "anti-periodic")) != p["periodic"][ax]:
-                    ctx.monitor_fail("parse", key, real, "periodicity matches the grid", "accepted condition contradicts grid periodicity",
-                                     key={"call_site": "get_boundary_axis"})
+        m = parse_monitor(p, real)
+        if m:
+            ctx.monitor_fail("parse", dict(key, leg="parse", pickle_parse=pack(p)), real, "one condition per axis, periodic iff the grid is",
+                             m["what"], key={"call_site": m["call_site"]})
 
 
 def replay(ctx, rep):
-    """re-run the monitor of a failing ghost case on the real code (all interpreted routes)"""
+    """re-run the recorded case on the real code - same leg, same route, same execution mode
+    (compiled / source semantics) - and judge the recorded symptom; False iff it still fails"""
     c = rep["case"]
-    if not c.get("pickle_case"):
-        print("this replay file records a parse/alias case:", c)
-        if "top" in c:
-            return False
+    leg = c.get("leg") or ("ghost" if c.get("pickle_case") else None)
+    if leg == "aliases":
+        _, bad = alias_monitor()
+        print("alias table:", "documented classes" if bad is None else bad)
+        return bad is None
+    if leg == "parse":
+        p = unpack(c["pickle_parse"])
+        real = real_parse(p)
+        m = parse_monitor(p, real)
+        print(f"specification {p['top_py']!r} on {p['grid']}: resolved {real}; monitor {'holds' if m is None else m}")
+        return m is None
+    if leg not in ("ghost", "linked") or not c.get("pickle_case"):
+        print("this replay file does not record a case of a known leg; it cannot be replayed:", {k: v for k, v in c.items() if not k.startswith("pickle")})
         return False
     case = unpack(c["pickle_case"])
-    res = real_ghost((case, True))
-    ok = True
-    for route in ("interpreted", "field", "numba"):
-        m = monitor(case, res[route])
-        print(f"route {route}: monitor {'holds' if m is None else m}")
-        ok = ok and m is None
-    return ok
+    route, mode = c.get("route", "interpreted"), c.get("mode", "source")
+    env = {"NUMBA_DISABLE_JIT": "0" if mode == "jit" else "1"}
+    if leg == "ghost":
+        res = run_many("harness.c02", "real_ghost", [(case, True, route == "get_boundary_values(bc)")], env=env, procs=1)[0]
+        if isinstance(res, str) or "error" in res:
+            print("real code failed:", res)
+            return False
+        if route == "get_virtual_point":
+            vpt = res["vpoint"].get((c["axis"], c["upper"]))
+            if vpt is None or isinstance(vpt, str):
+                print(f"route {route}: {vpt}")
+                return False
+            m = vpoint_monitor(case, c["axis"], c["upper"], vpt)
+            print(f"route {route} ({mode}): monitor {'holds' if m is None else m}")
+            return m is None
+        if route.startswith("get_boundary_values"):
+            tab = res.get("bvals_bc" if route.endswith("(bc)") else "bvals")
+            arr = res.get("bvals_bc_full") if route.endswith("(bc)") else res.get("field")
+            if "axis" in c and isinstance(tab, dict) and (c["axis"], c["upper"]) in tab:
+                s = case["sides"][(c["axis"], c["upper"])]
+                bv = tab[(c["axis"], c["upper"])]
+                want = np.array([float(x) for x in s["v"]]).reshape(s["vshape"] or ())
+                ok = bv.shape == np.shape(want) and bool(np.all(np.abs(bv - want) <= 1e-9 * np.maximum(1.0, np.abs(want))))
+                print(f"route {route} ({mode}): boundary values {bv.tolist()} imposed {want.tolist()}: {'agree' if ok else 'DIFFER'}")
+                return ok
+        else:
+            arr = res[{"interpreted": "interpreted", "field.set_ghost_cells": "field"}.get(route, "numba")]
+        cc = case
+    else:
+        v2 = unpack(c["pickle_values2"])
+        phase = int(c.get("phase", 2))
+        res = run_many("harness.c02", "real_linked", [(case, {k: [_fl(x, i) for x, i in zip(*v)] for k, v in v2.items()})],
+                       env=env, procs=1)[0]
+        if isinstance(res, str) or "error" in res:
+            print("real code failed:", res)
+            return False
+        arr = res[("interpreted" if route.startswith("interpreted") else "numba") + str(phase)]
+        cc = case if phase == 1 else linked_case2(case, v2)
+    if isinstance(arr, str) or arr is None:
+        print(f"route {route} ({mode}): {arr}")
+        return False
+    m = monitor(cc, arr)
+    print(f"route {route} ({mode}): monitor {'holds' if m is None else m}")
+    return m is None
